@@ -40,10 +40,17 @@ Qed.
 
 (* when the file is still what it was when the claims were written, today's positional reading is the
    specification *)
-Theorem positional_exact_when_unchanged cl snapshot i :
-  NoDup snapshot -> positional cl snapshot i = by_content cl snapshot snapshot i.
+Lemma filter_all {A} (f : A -> bool) l : forallb f l = true -> filter f l = l.
 Proof.
-  intro Hd. unfold positional, by_content.
+  induction l as [|x l IH]; intro H; [reflexivity|]. cbn [forallb] in H. apply andb_true_iff in H as [H1 H2].
+  cbn [filter]. rewrite H1, (IH H2). reflexivity.
+Qed.
+
+Theorem positional_exact_when_unchanged cl snapshot i :
+  NoDup snapshot -> forallb (fits (len snapshot)) cl = true ->
+  positional cl snapshot i = by_content cl snapshot snapshot i.
+Proof.
+  intros Hd Hf. unfold positional, by_content. rewrite (filter_all _ _ Hf).
   destruct (nth1 snapshot i) as [x|] eqn:E.
   - destruct (nth1_range _ _ _ E) as [A B].
     rewrite (nth1_index1 _ _ _ Hd E).
